@@ -19,7 +19,7 @@ Dummy == [ph |-> "closed"]
 TraceInit ==
   /\ l = 1
   /\ s = Dummy
-  /\ caller = [name |-> "", tid |-> 0]
+  /\ caller = [name |-> "", tid |-> 0, heap |-> 0, count |-> FALSE]
   /\ thr = {}
 
 ThreadName(b) ==
@@ -47,6 +47,11 @@ ThrNext(e, r) ==
   THEN thr \cup {[k |-> s.k, b |-> e.b, tid |-> r.tid]}
   ELSE thr
 
+\* C19: a sequential macro performs no heap allocation of its own.  `heap` is the value of a counting
+\* allocator that counts only outside the runtime's own bookkeeping; the generated user code never allocates.
+NoAlloc(e, r) ==
+  (caller.count /\ ~IsAsync(s.prog) /\ ~IsSpawn(s.prog) /\ e.ev # "begin") => r.heap = caller.heap
+
 Matches(e, r) ==
   /\ r.ev = e.ev
   /\ CASE e.ev = "init"   -> r.id = e.id /\ r.b = e.b
@@ -66,7 +71,7 @@ Reset(r) ==
   /\ r.ev = "reset"
   /\ s.ph = "closed" \/ (s.ph = "ended" /\ (s.dropsFree \/ s.garbage = {}))
   /\ s' = InitState(r.prog, r.plan, SeqToSet(r.gates))
-  /\ caller' = [name |-> "", tid |-> 0]
+  /\ caller' = [name |-> "", tid |-> 0, heap |-> 0, count |-> r.count]
   /\ thr' = {}
 
 SpecEvent(r) ==
@@ -77,7 +82,8 @@ SpecEvent(r) ==
           /\ ThreadOK(e, r)
           /\ s' = Apply(s, e)
           /\ thr' = ThrNext(e, r)
-          /\ caller' = IF e.ev = "begin" THEN [name |-> r.thr, tid |-> r.tid] ELSE caller
+          /\ NoAlloc(e, r)
+          /\ caller' = IF e.ev = "begin" THEN [caller EXCEPT !.name = r.thr, !.tid = r.tid, !.heap = r.heap] ELSE caller
      \/ \* once drop accounting is off (panic / abandoned futures) any drop is accepted
         /\ r.ev = "drop" /\ DropsFree(s) /\ r.v \notin s.garbage
         /\ UNCHANGED <<s, thr, caller>>
